@@ -1,5 +1,8 @@
 import ZipVerif.Tie.WriterSM
 import ZipVerif.Tie.RawCopy
+import ZipVerif.Tie.AlignedDev
+import ZipVerif.Tie.WriteAcc
+import ZipVerif.Tie.RawCopyAcc
 import ZipVerif.Props.C12
 /-
 COMPOSITION of the step-wise writer ties (`Tie/WriterSM.lean`) with the writer invariant
@@ -44,10 +47,12 @@ COVERED calls (the methods are translated, `Gen/Writer.lean`): start_file, start
 finish, drop, and (helper t6w4) raw_copy_file_rename from a source whose raw reader delivers the entry in ONE read
 (`GCall.rawCopy`, `Tie/RawCopy.sim_raw_copy_one`: an entry of at most 8 KiB; a longer copy is several sink writes in
 the source and one in the model's `Call.rawCopy` - equal on a fault-free sink, `raw_copy_chunking_invisible`, but not
-under every fault index, so it is not a covered call).  NOT YET covered: `Call.startFileAligned` - start_file_aligned is translated and tied RELATIVE to its
-four callees on a state predicate `I` closed under them (`Tie/Aligned.lean`, `CalleeSims ext I`); the side
-conditions (3) are not closed under `write` (they are re-assumed before every call here), so plugging it in needs
-`FitsRun` extended to the inner calls of that method.  Scripts that start from `ZipWriter::new_append` instead of
+under every fault index, so it is not a covered call), and (helper t6w5) start_file_aligned (`GCall.startFileAligned`,
+`Tie/AlignedDev.sim_start_file_aligned_at`): its tie holds on the runs that satisfy a POSITION BOUND - the sink
+position after the new entry's local header is at most 2^64 - 65540 (`AlignedDev.PosBound`, stated on the model's
+run; the source adds the pad and the extra-field length to that position in checked `u64`) -, so `step_sim` is a
+statement at ONE fault index and device (`SimAt`) and the bound is the per-step side condition `DevFits` of
+`FitsRun` (`True` for every other call).  Scripts that start from `ZipWriter::new_append` instead of
 `new`: `Tie/AppendCompose.lean` (`inv_new_append`, `append_grun_sim`).
 
 The vocabulary `Rs.S.switch_to` the generated methods call is PROVED equal to the translated
@@ -57,8 +62,20 @@ The vocabulary `Rs.S.switch_to` the generated methods call is PROVED equal to th
 The arguments of a `GCall` are generated values (`Gen.FileOptions`); `toCall` maps them with `optOf`.  The model's
 alphabet is larger (compression levels outside `i32`): those calls have no Rust counterpart.
 
-ASSUMED here (beside the vocabulary of `Tie/WriterSM.lean`): `hacc : ext.accept b = b.length` - the model's
-`Call.write` is `write_all` over an encoder that takes what it is offered (short-accepting encoders: C09);
+ASSUMED here (beside the vocabulary of `Tie/WriterSM.lean`): `AccOk ext.accept` - the encoder's `write` takes at
+most what it is offered and never answers `Ok(0)` to a non-empty buffer (`WriteZero` for `write_all`); NO LONGER
+assumed (helper t6w5): `ext.accept b = b.length`.  The model's `Call.write` is `write_all` over an encoder that
+takes everything; `Tie/WriteAcc.lean` proves the source's `write_all` loop over the translated `write` equal to it
+for every such accept function (`sim_write_all_gw`: the loop is `GW.writeAllLoop ext.accept`, helper c09b's
+one-call tie iterated; `writeData_acc_M`), with ONE exception that is a per-step side condition of `.write`
+(`NoRefusal` in `ArgFits`): an entry that crosses 4 GiB without `large_file` WHILE an encoder is in front of the
+sink - both sides refuse, but the source after the chunk that crossed the limit, the model after the whole buffer
+(different byte counter / CRC register in the closed writer: `Lemmas/ShortWrite.Refusal`).  `add_symlink` and
+`start_file_aligned` and `raw_copy_file_rename` write through a storer / into the extra field, where the accept
+function is not consulted (`sim_add_symlink_acc`, `AlignedDev.sim_wr`, `Tie/RawCopyAcc.sim_raw_copy_one_acc`).
+Raw copies of SEVERAL chunks: `Tie/RawCopyAcc.raw_copy_any_chunking` - on a fault-free sink the translated method
+has the outcome, final state, sink bytes and position of `Call.rawCopy` of the whole stream for ANY chunking; the
+two devices differ in the I/O call counter, so it is a one-call statement, not a covered call of `grun_sim`;
 `dropFields`: what dropping the fields of a `ZipWriter` does after `Drop::drop` returned (flate2 / bzip2
 encoders finish into the sink from their destructors) is the model's `dropInner` - external code;
 `fresh` is the struct literal of `ZipWriter::new` written by hand (`new` is not translated).
@@ -87,6 +104,8 @@ inductive GCall
   /-- `raw_copy_file_rename(file, name)` from a source entry whose raw reader delivers its bytes `raw` in ONE read
   (helper t6w4; `now`: the wall clock `FileOptions::default()` reads and the method overwrites) -/
   | rawCopy (now : Gen.DateTime) (file : Rs.C.ZipFile Gen.ZipFileData) (name raw : Bytes)
+  /-- `start_file_aligned(name, options, align)` (helper t6w5) -/
+  | startFileAligned (name : Bytes) (o : Gen.FileOptions) (align : UInt16)
 
 /-- the model call of a covered call -/
 def toCall : GCall → Call
@@ -101,6 +120,7 @@ def toCall : GCall → Call
   | .finish => .finish
   | .drop => .drop
   | .rawCopy _ file n raw => .rawCopy (dataOf file.data) raw n
+  | .startFileAligned n o a => .startFileAligned n (optOf o) a
 
 /-- the value `ZipWriter::new(sink)` builds -/
 def fresh : Gen.ZipWriter :=
@@ -142,6 +162,8 @@ def gstep (ext : Rs.S.Ext) (c : GCall) (g : Gen.ZipWriter) : M (Except ZErr (Opt
   | .drop => Rs.S.run (Gen.ZipWriter.drop ext g) >>= fun p => dropFields ext.toWExt p.2
   | .rawCopy now file n _ =>
     okMap (fun _ => none) <$> Rs.S.run (Gen.ZipWriter.raw_copy_file_rename ext now g file n)
+  | .startFileAligned n o a =>
+    okMap (fun v => some v.toNat) <$> Rs.S.run (Gen.ZipWriter.start_file_aligned ext g n o a)
 
 /-! ### (3) the `Nat` / `u64` side conditions -/
 
@@ -164,13 +186,22 @@ def ArgFits (g : Gen.ZipWriter) : GCall → Prop
   | .startFile n _ => n.length < 18446744073709551616
   | .startFileWithExtraData n _ => n.length < 18446744073709551616
   | .write b => b.length < 9223372036854775808 ∧
-      g.stats.bytes_written.toNat + b.length < 18446744073709551616
+      g.stats.bytes_written.toNat + b.length < 18446744073709551616 ∧ NoRefusal g b
   | .addDirectory n _ => n.length + 1 < 18446744073709551616
   | .addSymlink n t _ => n.length < 18446744073709551616 ∧ t.length < 9223372036854775808
   | .rawCopy _ file n raw => n.length < 18446744073709551616 ∧ Delivers file.raw [raw]
+  | .startFileAligned n _ _ => n.length < 18446744073709551616
   | _ => True
 
 def Fits (g : Gen.ZipWriter) (c : GCall) : Prop := Sized g ∧ ArgFits g c
+
+/-- the side condition on the RUN (fault index and device): for `start_file_aligned` the position bound of
+`Tie/AlignedDev.lean` - the sink position after the new entry's local header is at most 2^64 - 65540 -, nothing
+for the other calls -/
+def DevFits (ext : Rs.S.Ext) (g : Gen.ZipWriter) (c : GCall) (fa : Option Nat) (d : Dev) : Prop :=
+  match c with
+  | .startFileAligned n o _ => AlignedDev.PosBound ext.toWExt n (optOf o) (absW g) fa d
+  | _ => True
 
 theorem sized_fresh : Sized fresh :=
   ⟨fun f h => (by cases h), fun f h => (by cases h), (by decide), (by decide)⟩
@@ -273,41 +304,64 @@ theorem step_drop_eq (ext : WExt) (s : WState) :
   show mapStep _ (dropWriter ext) s = _
   rw [mapStep_eq, dropWriter_eq, bind_assoc]
 
+/-- the pointwise form of `Sim.toStep` -/
+theorem SimAt.toStep {α α' : Type} {φ : Except ZErr α × Gen.ZipWriter → Except ZErr α' × WState}
+    {P : Except ZErr α × Gen.ZipWriter → Prop} {X : M (Except ZErr α × Gen.ZipWriter)} {st : Step α'} {s : WState}
+    {fa : Option Nat} {d : Dev}
+    (a : α → Option Nat) (a' : α' → Option Nat) (h : AlignedDev.SimAt φ P X (st s) fa d)
+    (hφ : ∀ r, (φ r).2 = absW r.2 ∧ (φ r).1.map a' = r.1.map a) :
+    AlignedDev.SimAt absRO (fun _ => True) (okMap a <$> X) (mapStep a' st s) fa d := by
+  rw [mapStep_eq, map_eq_pure_bind]
+  refine AlignedDev.SimAt.bind h fun r d1 _ _ _ => AlignedDev.SimAt.of_sim (Sim.leaf ?_ trivial)
+  obtain ⟨h1, h2⟩ := hφ r
+  simp only [absRO, okMap, h1, h2]
+
 /-- **One covered call**: under the invariant, admissibility of the call and the `u64` side conditions the
-generated method is simulated by the model's dispatch of the call. -/
-theorem step_sim (ext : Rs.S.Ext) (hacc : ∀ b, ext.accept b = b.length) (c : GCall) (g : Gen.ZipWriter)
-    (hI : Inv (absW g)) (hadm : (toCall c).Admissible) (hfit : Fits g c) :
-    Sim absRO (fun _ => True) (gstep ext c g) (step ext.toWExt (toCall c) (absW g)) := by
+generated method is simulated by the model's dispatch of the call - on every fault index and device (`SimAt`: the
+statement of `Sim` for one run), for `start_file_aligned` on those that satisfy the position bound `DevFits`. -/
+theorem step_sim (ext : Rs.S.Ext) (hacc : AccOk ext.accept) (c : GCall) (g : Gen.ZipWriter)
+    (hI : Inv (absW g)) (hadm : (toCall c).Admissible) (hfit : Fits g c) (fa : Option Nat) (d : Dev)
+    (hdev : DevFits ext g c fa d) :
+    AlignedDev.SimAt absRO (fun _ => True) (gstep ext c g) (step ext.toWExt (toCall c) (absW g)) fa d := by
   obtain ⟨hs, ha⟩ := hfit
   have htime := htime_of_admissible c hadm
   cases c with
   | startFile n o =>
-    exact Sim.toStep _ _ (sim_start_file ext g n o hs.last ha htime) (absR_ok _)
+    exact AlignedDev.SimAt.of_sim (Sim.toStep _ _ (sim_start_file ext g n o hs.last ha htime) (absR_ok _))
   | startFileWithExtraData n o =>
-    exact Sim.toStep _ _ (sim_start_file_with_extra_data ext g n o hs.last ha htime) absRn_ok
+    exact AlignedDev.SimAt.of_sim (Sim.toStep _ _ (sim_start_file_with_extra_data ext g n o hs.last ha htime) absRn_ok)
   | write b =>
-    exact Sim.toStep _ _ (sim_write_all ext g b ha.1 ha.2 (hinv_of_inv g hI) hacc) (absR_ok _)
+    exact AlignedDev.SimAt.of_sim
+      (Sim.toStep _ _ (sim_write_all_acc ext hacc g b ha.1 ha.2.1 (hinv_of_inv g hI) ha.2.2) (absR_ok _))
   | endLocalStartCentral =>
-    exact Sim.toStep _ _ (sim_end_local_start_central ext g hs.last.extra) absRn_ok
+    exact AlignedDev.SimAt.of_sim (Sim.toStep _ _ (sim_end_local_start_central ext g hs.last.extra) absRn_ok)
   | endExtraData =>
-    exact Sim.toStep _ _ (sim_end_extra_data ext g hs.last.extra) absRn_ok
+    exact AlignedDev.SimAt.of_sim (Sim.toStep _ _ (sim_end_extra_data ext g hs.last.extra) absRn_ok)
   | addDirectory n o =>
-    exact Sim.toStep _ _ (sim_add_directory ext g n o hs.last ha htime) (absR_ok _)
+    exact AlignedDev.SimAt.of_sim (Sim.toStep _ _ (sim_add_directory ext g n o hs.last ha htime) (absR_ok _))
   | addSymlink n t o =>
-    exact Sim.toStep _ _ (sim_add_symlink ext g n t o hs.last ha.1 ha.2 htime hacc) (absR_ok _)
+    exact AlignedDev.SimAt.of_sim
+      (Sim.toStep _ _ (sim_add_symlink_acc ext hacc g n t o hI hs.last ha.1 ha.2 hadm) (absR_ok _))
   | setComment c =>
+    refine AlignedDev.SimAt.of_sim ?_
     simp only [gstep, toCall, step, tie_set_comment, map_pure]
     exact Sim.leaf rfl trivial
   | finish =>
-    exact Sim.toStep _ _ (sim_finish ext g hs.last (fileOK_of_inv g hI hs) hs.nfiles hs.comment) (absR_ok _)
+    exact AlignedDev.SimAt.of_sim
+      (Sim.toStep _ _ (sim_finish ext g hs.last (fileOK_of_inv g hI hs) hs.nfiles hs.comment) (absR_ok _))
   | drop =>
+    refine AlignedDev.SimAt.of_sim ?_
     simp only [gstep, toCall]
     rw [step_drop_eq]
     refine Sim.bind (sim_drop ext g hs.last (fileOK_of_inv g hI hs) hs.nfiles hs.comment) fun p _ => ?_
     have := dropFields_eq ext.toWExt p.2
     exact (Sim.of_erase (by rw [this]; rfl)).mono fun _ _ => trivial
   | rawCopy now file n raw =>
-    exact Sim.toStep _ _ (sim_raw_copy_one ext now g file n raw hs.last ha.1 htime hacc ha.2) (absR_ok _)
+    exact AlignedDev.SimAt.of_sim
+      (Sim.toStep _ _ (sim_raw_copy_one_acc ext hacc now g hI file n raw hs.last ha.1 hadm ha.2) (absR_ok _))
+  | startFileAligned n o a =>
+    exact SimAt.toStep _ _ (AlignedDev.sim_start_file_aligned_at ext hacc g hI hs.last n ha o hadm.1 hadm.2 a fa d hdev)
+      absRn_ok
 
 /-! ### call sequences -/
 
@@ -332,7 +386,7 @@ def grun (ext : Rs.S.Ext) :
 def FitsRun (ext : Rs.S.Ext) : List GCall → Gen.ZipWriter → Option Nat → Dev → Prop
   | [], _, _, _ => True
   | c :: cs, g, fa, d =>
-    Fits g c ∧
+    Fits g c ∧ DevFits ext g c fa d ∧
     match gstep ext c g fa d with
     | (.ok (_, g'), d') => FitsRun ext cs g' fa d'
     | (.err _, d') => FitsRun ext cs g fa d'
@@ -342,7 +396,7 @@ def FitsRun (ext : Rs.S.Ext) : List GCall → Gen.ZipWriter → Option Nat → D
 on every device and fault index, the side conditions holding along the run: the run of the GENERATED methods
 either stops with the `u64`-position panic `OVF`, or has the outcomes (up to the panic-site string), the
 final object and the final device of the model's `runCalls`. -/
-theorem grun_sim (ext : Rs.S.Ext) (hacc : ∀ b, ext.accept b = b.length) (calls : List GCall)
+theorem grun_sim (ext : Rs.S.Ext) (hacc : AccOk ext.accept) (calls : List GCall)
     (hadm : ∀ c ∈ calls, (toCall c).Admissible) :
     ∀ (g : Gen.ZipWriter), Inv (absW g) → ∀ (fa : Option Nat) (d : Dev), FitsRun ext calls g fa d →
       Out.panic Rs.S.OVF ∈ (grun ext calls g fa d).1 ∨
@@ -355,9 +409,10 @@ theorem grun_sim (ext : Rs.S.Ext) (hacc : ∀ b, ext.accept b = b.length) (calls
   | cons c cs ih =>
     intro g hI fa d hfits
     have ih' := ih (fun c' h' => hadm c' (by simp [h']))
-    obtain ⟨hfit, hrest⟩ := hfits
+    obtain ⟨hfit, hdev, hrest⟩ := hfits
     have hc := hadm c (by simp)
-    have hsim := step_sim ext hacc c g hI hc hfit fa d
+    have hsim := step_sim ext hacc c g hI hc hfit fa d hdev
+    unfold AlignedDev.SimAt at hsim
     have hinv := inv_step ext.toWExt (toCall c) hc (absW g) hI fa d
     unfold Model.Sat at hinv
     simp only [List.map_cons, grun, runCalls]
@@ -408,7 +463,7 @@ theorem grun_sim (ext : Rs.S.Ext) (hacc : ∀ b, ext.accept b = b.length) (calls
         | panic s' => right; exact ⟨rfl, rfl, rfl⟩
 
 /-- The fresh-writer instance: `runCalls … WState.init`, the form the archive-level theorems use. -/
-theorem grun_sim_fresh (ext : Rs.S.Ext) (hacc : ∀ b, ext.accept b = b.length) (calls : List GCall)
+theorem grun_sim_fresh (ext : Rs.S.Ext) (hacc : AccOk ext.accept) (calls : List GCall)
     (hadm : ∀ c ∈ calls, (toCall c).Admissible) (fa : Option Nat) (d : Dev)
     (hfits : FitsRun ext calls fresh fa d) :
     Out.panic Rs.S.OVF ∈ (grun ext calls fresh fa d).1 ∨
@@ -420,7 +475,7 @@ theorem grun_sim_fresh (ext : Rs.S.Ext) (hacc : ∀ b, ext.accept b = b.length) 
 
 /-- `Props.C12.writer_no_panic`, transferred: no call of the GENERATED run panics, other than by `OVF`,
 when the run ends on a device in the `u64` range. -/
-theorem grun_no_panic (ext : Rs.S.Ext) (hacc : ∀ b, ext.accept b = b.length) (calls : List GCall)
+theorem grun_no_panic (ext : Rs.S.Ext) (hacc : AccOk ext.accept) (calls : List GCall)
     (hadm : ∀ c ∈ calls, (toCall c).Admissible) (fa : Option Nat) (d : Dev)
     (hfits : FitsRun ext calls fresh fa d)
     (hd : Props.C12.Dev.InRange (grun ext calls fresh fa d).2.2) :
@@ -446,6 +501,6 @@ theorem grun_no_panic (ext : Rs.S.Ext) (hacc : ∀ b, ext.accept b = b.length) (
 /-- a concrete script satisfies the side conditions -/
 example : FitsRun ⟨⟨fun _ _ b => b, fun _ b => b⟩, List.length, fun _ => Nat.le_refl _⟩
     [.setComment [1, 2]] fresh none (Dev.ofBytes []) :=
-  ⟨⟨sized_fresh, trivial⟩, trivial⟩
+  ⟨⟨sized_fresh, trivial⟩, trivial, trivial⟩
 
 end ZipVerif.Tie.WriterCompose
